@@ -40,6 +40,7 @@ SHAPES = [
     "int (*fpa[3])(int (*)(int)); int (*(*ppf)(void))[2]; const volatile int * const * restrict volatile cv;",
     "int a; int g = ({ int t = a; t; }); void f(void) { long l = ({ char c = 1; struct Q { int m; } q; q.m + c; }) + 1; int arr[({ int n = 2; n; })]; }",
     "int f(unknown_t a, T b) { return a + b - *a; } void g(U u) { u.m = 1; u(); u[0]; } int a[] = { 1, 2, { , } ;",
+    "void s() { (b) & _Generic(1, int: 3); (c) * sizeof(struct W { int w; }); (d) - (int) { 1 }; u (v[sizeof(char)]); } }",
     "", ";", "int", "int x", "struct", "typedef", "void f(", "int a[", "x y z;", "{ }", "= 3;", "int x = ;", "void f(void) { return", "enum E {", "struct S { int",
 ]
 
